@@ -54,6 +54,9 @@ pub fn configs(prop: &str, tier: Tier, seed: u64) -> Vec<Entry> {
         "C11" => crate::props::c11::configs(tier, seed),
         "C12" => crate::props::c12::configs(tier, seed),
         "C13" => crate::props::c13::configs(tier, seed),
+        "C14" => crate::props::c14::configs_c14(tier, seed),
+        "C15" => crate::props::c14::configs_c15(tier, seed),
+        "C16" => crate::props::c14::configs_c16(tier, seed),
         "C10" => crate::props::c10::configs(tier, seed),
         _ => vec![],
     }
